@@ -123,6 +123,9 @@ func (g *grownRoom) add(e roomEvent, ts int64, idTag int) bool {
 	id := len(g.events) + 1
 	e.ID = id
 	e.TS = ts
+	if e.Addl == nil {
+		e.Addl = []string{}
+	}
 	var realID string
 	switch {
 	case isDomainless(g.ver) || !isFormatV1(g.ver):
@@ -153,6 +156,13 @@ func (g *grownRoom) add(e roomEvent, ts int64, idTag int) bool {
 		c := map[string]interface{}{"room_version": g.ver}
 		if !(g.ver == "11" || isDomainless(g.ver)) {
 			c["creator"] = userIDs[e.Sender]
+		}
+		if len(e.Addl) > 0 {
+			var addl []string
+			for _, u := range e.Addl {
+				addl = append(addl, userIDs[u])
+			}
+			c["additional_creators"] = addl
 		}
 		es.Content = c
 	case "member":
@@ -226,7 +236,11 @@ func growRoom(rng *rand.Rand, ver string, free int, tw *traceWriter, limit int) 
 		}
 		g.after = append(g.after, applyState(g, st, id))
 	}
-	mustAdd(roomEvent{Type: "create", Sender: "creator", PLU: noUsers(), Prev: []int{}, Auth: []int{}, Depth: 1})
+	var addl []string
+	if isDomainless(ver) && rng.Intn(2) == 0 {
+		addl = []string{"alice"} // an additional creator: holds the creators' level without a power-levels entry
+	}
+	mustAdd(roomEvent{Type: "create", Sender: "creator", PLU: noUsers(), Prev: []int{}, Auth: []int{}, Depth: 1, Addl: addl})
 	mustAdd(roomEvent{Type: "member", Sender: "creator", SKey: "creator", Membership: "join", PLU: noUsers(), Prev: []int{1}, Auth: []int{1}, Depth: 2})
 	mustAdd(roomEvent{Type: "pl", Sender: "creator", PLU: initPL, Prev: []int{2}, Auth: []int{1, 2}, Depth: 3})
 	mustAdd(roomEvent{Type: "jr", Sender: "creator", JR: "public", PLU: noUsers(), Prev: []int{3}, Auth: []int{1, 2, 3}, Depth: 4})
